@@ -11,9 +11,12 @@ pub fn run(args: &Args) {
                 non-trivial = pair history with >= 3 successful op kinds, or a router case with >= 2 hops that paid out > 0; distinct by hash".into();
     let mut rng = Rng::new(args.seed);
     let bias = Bias { tiny_swaps: false, spreads: false, toggles: false };
-    for c in 0..args.n {
+    let corpus = threshold_corpus();
+    let ncorpus = corpus.len() as u64;
+    for c in 0..(args.n + ncorpus) {
         let len = 5 + rng.below(25) as usize;
-        let case = match std::panic::catch_unwind(std::panic::AssertUnwindSafe(|| gen_case(&mut rng, len, &bias))) { Ok(c) => c, Err(_) => { out.count("generator_panic"); continue } };
+        let case = if c < ncorpus { corpus[c as usize].clone() } else {
+            match std::panic::catch_unwind(std::panic::AssertUnwindSafe(|| gen_case(&mut rng, len, &bias))) { Ok(c) => c, Err(_) => { out.count("generator_panic"); continue } } };
         let r = match run_case(&mut out, "C14", &case) { Some(r) => r, None => continue };
         if r.kinds_ok.len() >= 3 && r.had_remainder { out.nontrivial_key(hash_str(&case.coq())); }
         if c < 2 { out.sample(case.json()); }
